@@ -24,7 +24,7 @@ PROBES = {
             'queue-depth>=4', 'percb-gets-data-block', 'line>16384', '5xx-reply',
             'segmented-delivery'],
     'C02': ['split-inside-crlf', 'event-while-percb-inflight', 'event-while-plain-inflight', 'event-idle',
-            'event-no-listener', 'listener-removed-during-delivery', 'raising-listener', 'last-listener-removed',
+            'event-no-listener', 'listener-removed-during-delivery', 'listener-added-during-delivery', 'raising-listener', 'last-listener-removed',
             'event-form-single', 'event-form-multi', 'event-form-data', 'two-events-one-chunk',
             'segmented-delivery'],
     'C03': ['cut-mid-line', 'cut-mid-data-block', 'cut-during-auth', 'cut-with>=3-queued', 'cut-idle',
@@ -85,6 +85,7 @@ class CtlRun(object):
         self.events = []            # dicts: eid, name, form, payloads, end (s2c offset)
         self.step_calls = []        # (eid, lid, payload) during the current step
         self.step_removed = []      # (eid, lid) removed during delivery of eid
+        self.step_added = []        # (eid, lid, name) listeners registered during delivery of eid
         self.cur_event = None
         self.delivered_before = 0
         self.events_checked = 0
@@ -417,6 +418,7 @@ class CtlRun(object):
         self.delivered_before = self.conn.total_s2c_delivered
         self.step_calls = []
         self.step_removed = []
+        self.step_added = []
 
     # ------------------------------------------------------------------ C02 ops
     def op_listener(self):
@@ -428,7 +430,11 @@ class CtlRun(object):
             self.remove_listener(l, None)
             return
         name = ch.pick(LISTEN_NAMES, 'lname')
-        beh = ['normal', 'raise', 'remove-self', 'remove-other'][ch.weighted([6, 2, 2, 2], 'beh')]
+        beh = ['normal', 'raise', 'remove-self', 'remove-other', 'add-other'][ch.weighted([6, 2, 2, 2, 2], 'beh')]
+        self.add_listener(name, beh, None)
+
+    def add_listener(self, name, beh, during_eid):
+        ch, sim = self.ch, self.sim
         l = Listener(len(self.listeners), name, beh)
         if beh == 'remove-other':
             l.target = ch.draw(len(self.listeners) + 1, 'target')
@@ -437,7 +443,11 @@ class CtlRun(object):
         first = not self.live.get(name)
         self.live.setdefault(name, []).append(l.lid)
         l.registered = True
-        sim.log('add-listener', l.lid, name, beh)
+        sim.log('add-listener', l.lid, name, beh, 'during-e%s' % during_eid if during_eid is not None else '')
+        if during_eid is not None:
+            l.min_eid = during_eid + 1
+            self.step_added.append((during_eid, l.lid, name))
+            sim.probe('listener-added-during-delivery')
         if first:
             names = frozenset(n for n, v in self.live.items() if v)
             c = Cmd(len(self.cmds), 'setevents', 'SETEVENTS', wire=('setevents', names))
@@ -527,6 +537,8 @@ class CtlRun(object):
         if eid is None and self.events_checked < len(self.events):
             # event without arguments: attribute to the oldest unchecked no-arg event of that name
             for ev in self.events[self.events_checked:]:
+                if ev['eid'] < getattr(l, 'min_eid', 0):
+                    continue
                 if ev['noargs'] and ev['name'] == l.name and not any(
                         e == ev['eid'] and lid == l.lid for e, lid, _ in self.step_calls):
                     eid = ev['eid']
@@ -539,6 +551,11 @@ class CtlRun(object):
         elif l.behaviour == 'remove-other':
             if l.target < len(self.listeners):
                 self.remove_listener(self.listeners[l.target], eid)
+        elif l.behaviour == 'add-other':
+            # registers a follow-up listener for the same event from inside the delivery (once)
+            l.behaviour = 'normal'
+            if sum(1 for x in self.listeners if x.registered) < self.P.get('max_listeners', 6) + 2:
+                self.add_listener(l.name, 'normal', eid)
         elif l.behaviour == 'raise':
             sim.probe('raising-listener')
             raise RuntimeError('listener %d raises' % l.lid)
@@ -601,6 +618,9 @@ class CtlRun(object):
                         ev['eid'], p, sorted(ev['payloads'])))
             for nm in list(S):
                 S[nm] = [l for l in S[nm] if l not in removed]
+            for e, lid, nm in self.step_added:
+                if e == ev['eid']:
+                    S.setdefault(nm, []).append(lid)
 
     # ------------------------------------------------------------------ C03 ops
     def op_when_disconnected(self):
